@@ -542,22 +542,37 @@ def step2(line):
     if cmd == 'tobits':
         return show_bits(getattr(M, p[1]).create(**parse_kw(p[2])).to_bitarray())
     if cmd == 'encode_dict':
-        r = ENC.encode_dict(parse_kw(p[3]), talker_id=unhx(p[1]).decode('latin-1'),
-                            radio_channel=unhx(p[2]).decode('latin-1'))
+        r = _twice(lambda: ENC.encode_dict(parse_kw(p[3]), talker_id=unhx(p[1]).decode('latin-1'),
+                                           radio_channel=unhx(p[2]).decode('latin-1')))
         return ','.join(hx(s.encode('latin-1')) for s in r)
     if cmd == 'encode_msg':
         m = getattr(M, p[1]).create(**parse_kw(p[4]))
-        r = ENC.encode_msg(m, talker_id=unhx(p[2]).decode('latin-1'), radio_channel=unhx(p[3]).decode('latin-1'))
+        r = _twice(lambda: ENC.encode_msg(m, talker_id=unhx(p[2]).decode('latin-1'),
+                                          radio_channel=unhx(p[3]).decode('latin-1')))
         return ','.join(hx(s.encode('latin-1')) for s in r)
     if cmd == 'nmea':
-        r = ENC.ais_to_nmea_0183(unhx(p[1]).decode('latin-1'), unhx(p[2]).decode('latin-1'),
-                                 unhx(p[3]).decode('latin-1'), int(p[4]))
+        r = _twice(lambda: ENC.ais_to_nmea_0183(unhx(p[1]).decode('latin-1'), unhx(p[2]).decode('latin-1'),
+                                                unhx(p[3]).decode('latin-1'), int(p[4])))
         return ','.join(hx(s.encode('latin-1')) for s in r) if r else '-'
     if cmd == 'tracker':
         return run_tracker(p[1] == '1', None if p[2] == 'N' else int(p[2]), p[3:])
     if cmd == 'chain':
         return run_chain(p[1], [unhx(x) for x in p[3:]])
     return None
+
+
+def _twice(fn):
+    """The encoder is a function of its arguments: call it, let the caller consume the returned list in
+    place (as a sender popping the sentences would), call it again with the same arguments and report
+    what the second caller gets (a result that aliases state of the first call shows up here)."""
+    first = fn()
+    snapshot = list(first)
+    try:
+        first.clear()
+    except Exception:  # noqa
+        pass
+    second = fn()
+    return list(second) if list(second) != snapshot else snapshot
 
 
 _step1 = step
